@@ -62,6 +62,7 @@ type seqInst struct {
 	onLoad         func(r any) (*ctlog.Log, error)
 	runseqCancel   context.CancelFunc
 	runseqMode     bool
+	lockFailGen    int // gen+1 of the process generation in which a Lock.Replace returned an error
 	stopLockLen    int
 	sunsetStopped  bool // RunSequencer returned SunsetLogError
 	sunsetArmed    bool // the scenario moved the read-only date next to (or before) now
